@@ -317,10 +317,81 @@ func c08File(content []byte, dir string, idx int) []string {
 	if strings.HasPrefix(got.outcome, "PANIC") {
 		return []string{"X loadfile-panic => " + hexOrDash(content) + " " + got.outcome}
 	}
+	// the Lua-level loaders see the same bytes and must come to the same result: loadfile(path) as LState.LoadFile;
+	// loadstring(text) and load(reader) — the text handed over in pieces cut at arbitrary points — as LState.LoadString
+	if lf := c08LuaLoaders(content, p, idx); lf != "" {
+		return []string{lf}
+	}
 	if got != want {
 		return []string{fmt.Sprintf("X loadfile-differs => content=%s LoadFile=%s LoadString(first line dropped)=%s", hexOrDash(content), got.outcome, want.outcome)}
 	}
 	return []string{"L lex 0 " + hexOrDash([]byte(equiv)) + " => " + ld.outcome + " " + func() string { t, _ := c08Tokens(equiv); return strings.Join(t, " ") }()}
+}
+
+// c08LuaLoaders: "" when loadfile / loadstring / load agree with the Go-level loaders on this content.
+func c08LuaLoaders(content []byte, path string, idx int) (diff string) {
+	defer func() {
+		if x := recover(); x != nil {
+			diff = "X lua-loader-panic => " + hexOrDash(content) + " " + strings.ReplaceAll(fmt.Sprint(x), "\n", " ")
+		}
+	}()
+	L := lua.NewState()
+	defer L.Close()
+	dump := func(v lua.LValue) string {
+		fn, ok := v.(*lua.LFunction)
+		if !ok || fn.Proto == nil {
+			return "err"
+		}
+		var sb strings.Builder
+		dumpProto(fn.Proto, &sb, true)
+		return "fn " + sb.String()
+	}
+	call := func(name string, args ...lua.LValue) string {
+		if err := L.CallByParam(lua.P{Fn: L.GetGlobal(name), NRet: 1, Protect: true}, args...); err != nil {
+			return "raised " + err.Error()
+		}
+		v := L.Get(-1)
+		L.Pop(1)
+		return dump(v)
+	}
+	want := "err"
+	if fn, err := L.LoadFile(path); err == nil {
+		want = dump(fn)
+	}
+	if got := call("loadfile", lua.LString(path)); got != want {
+		return fmt.Sprintf("X loadfile-lua-differs => content=%s loadfile=%.40s LState.LoadFile=%.40s", hexOrDash(content), got, want)
+	}
+	text := string(content)
+	want = "err"
+	if fn, err := L.LoadString(text); err == nil {
+		want = dump(fn)
+	}
+	if got := call("loadstring", lua.LString(text)); got != want {
+		return fmt.Sprintf("X loadstring-lua-differs => content=%s loadstring=%.40s LState.LoadString=%.40s", hexOrDash(content), got, want)
+	}
+	// load(reader): pieces cut at seeded points (single bytes, halves, everything at once); the reader ends with nil
+	r := NewRng(uint64(idx)*2654435761 + uint64(len(content)))
+	var pieces []string
+	for rest := text; len(rest) > 0; {
+		n := 1 + r.Intn(len(rest))
+		if r.Chance(30) {
+			n = 1
+		}
+		pieces, rest = append(pieces, rest[:n]), rest[n:]
+	}
+	i := 0
+	reader := L.NewFunction(func(L *lua.LState) int {
+		if i >= len(pieces) {
+			return 0
+		}
+		L.Push(lua.LString(pieces[i]))
+		i++
+		return 1
+	})
+	if got := call("load", reader, lua.LString("<string>")); got != want {
+		return fmt.Sprintf("X load-reader-differs => content=%s pieces=%d load=%.40s LState.LoadString=%.40s", hexOrDash(content), len(pieces), got, want)
+	}
+	return ""
 }
 
 func c08Deep(kind string, n int) string {
